@@ -104,12 +104,24 @@ func genC14(r *Rng, tier string) []Case {
 			enc(d, rs, r.Bytes(r.Intn(4*rs+2)))
 		}
 	}
+	// record sizes the encoder must refuse or survive: 0, negative, far above the payload
+	for d := 0; d < 2; d++ {
+		for _, rs := range []int64{0, -1, -16, 1 << 40, 1<<62 + 1, 1<<63 - 1} {
+			for _, n := range []int{0, 1, 2, 17} {
+				cs = append(cs, Case{"mi_enc", []Sx{draftSym(d), Zi(rs), B(r.Bytes(n))}})
+			}
+		}
+	}
 	return cs
 }
 
 func genC15(r *Rng, tier string) []Case {
 	cs := []Case{}
 	dec := func(d int, stream []byte, dg string, maxrs uint64, ks []int, rk string) {
+		if r.Chance(1, 3) { // a caller that keeps reading after the error / end of stream
+			cs = append(cs, Case{"mi_dec_retry", []Sx{draftSym(d), B(stream), B([]byte(dg)), Zu(maxrs), sizesSx(ks...), Zi(3)}})
+			return
+		}
 		cs = append(cs, Case{"mi_dec", []Sx{draftSym(d), B(stream), B([]byte(dg)), Zu(maxrs), sizesSx(ks...), Sym(rk)}})
 	}
 	rks := []string{"plain", "onebyte", "dataerr", "half"}
@@ -183,6 +195,19 @@ func genC15(r *Rng, tier string) []Case {
 			sb, db := miEncodeRef(d, rs, pb)
 			k := 1 + r.Intn(rs+3)
 			cs = append(cs, Case{"mi_interleave", []Sx{draftSym(d), B(sa), B([]byte(da)), B(sb), B([]byte(db)), Zi(int64(k))}})
+		}
+		// a junk record in front of an honest stream; the empty payload's digest with junk
+		for i := 0; i < 20; i++ {
+			rs := 1 + r.Intn(9)
+			stream, dg := miEncodeRef(d, rs, r.Bytes(r.Intn(4*rs)))
+			if len(stream) >= 8 {
+				m := append(append(append([]byte{}, stream[:8]...), r.Bytes(rs+32)...), stream[8:]...)
+				cs = append(cs, Case{"mi_dec_retry", []Sx{draftSym(d), B(m), B([]byte(dg)), Zu(16384), sizesSx(1 + r.Intn(2*rs)), Zi(4)}})
+			}
+			_, edg := miEncodeRef(d, rs, nil)
+			m := append(make([]byte, 7), byte(rs))
+			m = append(m, r.Bytes(r.Intn(rs+1))...)
+			cs = append(cs, Case{"mi_dec_retry", []Sx{draftSym(d), B(m), B([]byte(edg)), Zu(16384), sizesSx(3), Zi(4)}})
 		}
 		// arbitrary streams against arbitrary digests
 		n := 300
